@@ -140,8 +140,19 @@ func negative(m *dns.Msg, zone string, rcode int) {
 	m.Ns = append(m.Ns, soaFor(zone))
 }
 
+// cname builds an alias; the TTL depends on the owner's family so the hops
+// of a chain age differently (a composed reply carries per-hop TTLs).
 func cname(owner, target string) dns.RR {
-	return &dns.CNAME{Hdr: dns.RR_Header{Name: owner, Rrtype: dns.TypeCNAME, Class: dns.ClassINET, Ttl: posTTL}, Target: target}
+	ttl := uint32(posTTL)
+	switch {
+	case strings.HasPrefix(owner, "cna-"):
+		ttl = 120
+	case strings.HasPrefix(owner, "cnb-"):
+		ttl = 180
+	case strings.HasPrefix(owner, "cnp-"), strings.HasPrefix(owner, "sigc-"):
+		ttl = 240
+	}
+	return &dns.CNAME{Hdr: dns.RR_Header{Name: owner, Rrtype: dns.TypeCNAME, Class: dns.ClassINET, Ttl: ttl}, Target: target}
 }
 
 // signedNegative fills a signed NXDOMAIN / NODATA authority section.
